@@ -22,6 +22,7 @@ import inspect
 import io
 import logging
 import os.path
+import sys
 from pathlib import Path
 
 from cutplace import _compat, _tools, checks, data, errors, fields, rowio
@@ -424,6 +425,13 @@ class Cid(object):
                 raise errors.InterfaceError(
                     "length of field %s for fixed data format must be at least 1 but is: %d"
                     % (_compat.text_repr(field_name), field_format.length.lower_limit),
+                    self._location,
+                )
+            if field_length.lower_limit > sys.maxsize:
+                # Such a field could never be read: io read() would fail with an OverflowError.
+                raise errors.InterfaceError(
+                    "length of field %s for fixed data format must be at most %d but is: %d"
+                    % (_compat.text_repr(field_name), sys.maxsize, field_format.length.lower_limit),
                     self._location,
                 )
         elif field_length.lower_limit is not None:
